@@ -276,14 +276,17 @@ class ConnRun:
     def ev_eof(self):
         self.inject("EnvEof", {}, self.w.eof)
 
-    def ev_reset(self):
+    def ev_reset(self, flavor: str | None = None):
+        """recv() fails.  flavor: reset | timedout | oserr (None: drawn from the run's seed)"""
         w = self.w
+        f = flavor or w.rng.choice(("reset", "reset", "timedout", "oserr", "oserr2"))
+        args = {"f": "oserr" if f == "oserr2" else f}
 
         def fn():
             # keep the Noise abstraction exact: not between hello and handshake
-            return w.reset()
+            return w.reset_as(f)
 
-        self.inject("EnvReset", {}, fn)
+        self.inject("EnvReset", args, fn)
 
     def ev_junk(self, cls: str):
         w = self.w
